@@ -73,6 +73,25 @@ real code, against a boring reference model (plain Python: controller name -> in
                 numbers of numpy (int64, int32, uint8, int16, uint64, int8, uint16, intc / float64, float32, float16,
                 longdouble in rotation, same values): static and hidden (thorough: + ops) against the hand-written formula
                 with Python's numbers.
+ part 'intkinds' the STEP of every operator and the INDEX of every selection by index given as every kind of integer - numbers of
+                numpy (int64, int32, int16, int8, an element of numpy.arange, uint8, uint16, uint64; thorough: + intp, intc,
+                longlong, uint32), a member of a subclass of int, a bool (steps / indices 0 and 1) -: from EVERY configuration,
+                every operator of prepare_operators() and the method behind it (increased_controller, decreased_controller,
+                two_controllers, modify_random_controllers; quick: 3 steps) x the step alphabet of the part 'ops' x every answer
+                of the random seam, compared with the reference model of int(step): closure, result, argument unaltered, object
+                state, formula (text; engine values and signature once per family of kinds and reached configuration); increase
+                then decrease and decrease then increase by the same step of that kind; select_expression /
+                CentralController.set_controller / Controller.set_index with every index of that kind (out-of-range ones
+                refused, the object as it was), current_configuration() in that state ==/hash the configuration, and Increase /
+                Decrease of every controller (step 1 as int and as that kind) on that object.
+ part 'refused' invalid requests with the object in EVERY configuration x derived from EVERY configuration: configure_catalogs /
+                set_configuration_from_id / an operator given a configuration with an unknown selection (a made-up name, the
+                name of a selection of another controller) at each position, with an unknown controller (sorting first / last),
+                lacking one controller; increased_controller / decreased_controller / set_controller / two_controllers on an
+                unknown controller; two_controllers with an unknown direction.  Whether the request is refused and whether it
+                moved the selection is counted, not judged (the statement is silent); judged: afterwards the object is in ONE
+                configuration of the product, every catalog on the member of its controller, the formula text that of the
+                hand-written one, and an operator applied to current_configuration() goes on as the reference model says.
 """
 from __future__ import annotations
 
@@ -103,7 +122,11 @@ TECHNIQUE = ('explicit-state exploration of the configuration graph of 17 (+1 in
              'member-order exploration repeated on every structure with its controller, catalog, member and generic names rewritten '
              'by 3 shapes of names (white space at the ends; names differing only by case, end blanks or unicode encoding; '
              'punctuation other than the reserved ";" and ":"), and with the plain numbers given to catalogs and segmentations '
-             'handed over as numbers of numpy')
+             'handed over as numbers of numpy; every configuration x every operator (and the method behind it) x step alphabet x '
+             'every kind of integer the step is given as (8-12 numpy integer types signed and unsigned, int subclass, bool), '
+             'increase-then-decrease with such steps, every selection by index x entry point x kind of integer, against the '
+             'reference model of int(value); every (state, configuration) pair x every invalid request derived from it '
+             '(unknown selection / controller, missing controller, unknown direction) x entry point: the object stays inside the product')
 RULE = ('one case per (structure, configuration, listing order) identifier check, per (structure, configuration, '
         'entry point, parameter point) evaluation against the hand-written formula, per visited element of an '
         'iteration, and per operator application (structure, hidden state, argument configuration, operator, step, '
@@ -117,7 +140,11 @@ RULE = ('one case per (structure, configuration, listing order) identifier check
         'as described, altered catalogs and their alteration, constructor), all non-trivial. Part treeops: one case per '
         '(structure, configuration, way the elementary objects are held, history of operations); non-trivial when the '
         'history changes the hand-written formula (or is the observers-only history). Parts names / numbers: the same cases on '
-        'the structure named <name>~<shape> / keyed additionally by the kind of number. distinct = distinct such keys.')
+        'the structure named <name>~<shape> / keyed additionally by the kind of number. Part intkinds: one case per '
+        '(structure, configuration, operator, step, kind of integer, entry point, random answer tape), per (configuration, '
+        'controller, step, kind, order) inverse pair, per (configuration, controller, index, kind, entry point) selection; '
+        'non-trivial when the configuration changes. Part refused: one case per (structure, state, invalid request); '
+        'non-trivial when the request moved the selection. distinct = distinct such keys.')
 ASSUMPTIONS = [
     'names of controllers, catalogs and members do not contain the reserved characters ";" and ":" and catalog '
     'names are unique in a formula (the library reserves / requires this)',
@@ -142,6 +169,13 @@ ASSUMPTIONS = [
     'names and names containing line breaks are not in the alphabet)',
     'the numbers of numpy (numpy.integer, numpy.floating) are valid wherever a catalog member / a key of a segmentation mapping '
     'is a plain number and mean the same value (repository commit 54cc724)',
+    'a step / an index is an integer whatever its type: numpy.integer of any width and signedness, subclasses of int, bool '
+    '(operator.index(value) is the step / index meant); the reported number of modifications only has to be an integer; numpy '
+    'overflow warnings are ignored, the result is judged',
+    'an invalid request (configuration naming an unknown selection / controller or lacking a controller, operator on an unknown '
+    'controller / direction) may be refused or not and may move the selection or not (counted): only the invariant that the '
+    'object stays in one configuration of the product, consistent with the hand-written formula, is judged; an out-of-range '
+    'index must be refused with the object unchanged (as in the part static)',
     'structures are bounded: <= 3 controllers, <= 4 selections per controller, <= 12 configurations per structure (24 in the thorough tier)',
 ]
 ANCHOR_FILES = ['src/biogeme/catalog.py', 'src/biogeme/controller.py', 'src/biogeme/configuration.py',
@@ -1596,7 +1630,8 @@ def tasks(tier, seed):
         ids = sp.all_ids()
         per = 1 if len(sp.names) >= 3 else 2
         for i in range(0, len(ids), per):
-            t.append(dict(part='intkinds', st=st['name'], seed=seed, tier=tier, starts=ids[i:i + per]))
+            t.append(dict(part='intkinds', st=st['name'], seed=seed, tier=tier, starts=ids[i:i + per],
+                          kinds=list(INT_KINDS if tier == 'thorough' else INT_KINDS_QUICK)))
     for st in sts:
         t.append(dict(part='refused', st=st['name'], seed=seed, tier=tier))
     return t
@@ -2982,6 +3017,10 @@ INT_KINDS = ('int64', 'int32', 'intp', 'int16', 'int8', 'intc', 'longlong', 'ara
              'uint8', 'uint16', 'uint32', 'uint64', 'int-subclass', 'bool')
 
 
+# quick tier: without the aliases of int64 / int32 on this platform (intp, longlong, intc) and without uint32
+INT_KINDS_QUICK = tuple(k_ for k_ in INT_KINDS if k_ not in ('intp', 'intc', 'longlong', 'uint32'))
+
+
 class _IntSub(int):
     """A subclass of int (as the members of an IntEnum are)."""
     __slots__ = ()
@@ -3037,6 +3076,7 @@ def _intkinds(task, st, space, rec):
     case = {k: v for k, v in task.items() if k != 'fresh'}
     deep_seen, text_seen = set(), set()
     napp = 0
+    full = task['tier'] == 'thorough'
 
     def kvio(role, kind):
         def vio(clause, what, expected=None, observed=None, witness=None):
@@ -3091,6 +3131,8 @@ def _intkinds(task, st, space, rec):
                             continue
                         vio = kvio('step', kind)
                         for entry in ('operator', 'method'):
+                            if entry == 'method' and not full and step not in (1, 2, steps[-1]):
+                                continue             # quick tier: the methods behind the operators with 3 steps only
                             def run():
                                 arg = Configuration.from_string(cid)
                                 new, nsteps = ops[opname](arg, k) if entry == 'operator' else method_call(desc, arg, k)
@@ -3123,6 +3165,11 @@ def _intkinds(task, st, space, rec):
                                     continue
                                 if arg_after != cid:
                                     vio('operator-alters-its-argument', f'{opname} changed its argument {cid!r} into {arg_after!r}', cid, arg_after)
+                                if desc[0] == 'several' and len(picked) != max(0, min(step, len(space.names))):
+                                    # the reference model (RefSpace.reach): min(step, number of controllers) controllers are drawn
+                                    vio('operator-result-differs-from-model', f'{opname} ({entry}) ({cid!r}, step {k!r}) drew {len(picked)} '
+                                        f'controllers {picked}; reference model (and the same call with the step {step}) '
+                                        f'{max(0, min(step, len(space.names)))}', max(0, min(step, len(space.names))), len(picked))
                                 if not integral(nsteps):
                                     vio('operator-result-differs-from-model', f'{opname} reports {nsteps!r} modifications', 'an integer', repr(nsteps))
                                 if cur != new_id:
@@ -3335,7 +3382,21 @@ def _refused(task, st, space, rec):
                     refused = type(e).__name__
                 nreq += 1
                 rec.transition()
-                cur, _ = real.cheap_state()
+                try:
+                    cur, _ = real.cheap_state()
+                except Exception as e:
+                    if not library_raised(e):
+                        raise
+                    rec.case(('refused', st['name'], s_id, text), (s_id, text, refused, type(e).__name__), outcome=('refused', request, 'no-state'))
+                    vio('invalid-request-leaves-the-product', f'object in {s_id!r}: after {text} ({"refused: " + refused if refused else "accepted"}) '
+                        f'the object is in no configuration: current_configuration() / the selected members raise {type(e).__name__}: {e}',
+                        sorted(idset), f'{type(e).__name__}: {e}')
+                    real = Real(st, space, seed)            # a new object for the rest of the exploration
+                    expr = real.expr
+                    expr.set_central_controller()
+                    cc = expr.central_controller
+                    ops = cc.prepare_operators()
+                    continue
                 rec.count('invalid_request_refused' if refused else 'invalid_request_accepted')
                 if cur != s_id:
                     rec.count('invalid_request_moved_the_selection')
